@@ -73,7 +73,7 @@ def exhaustive_specs(ctx):
                 if set(seq) == {"N"}:
                     continue
                 for rate, indels in ((0.0, True), (0.34, True), (0.5, False), (0.5, True)):
-                    if ctx.quick and (hash((typ, seq, rate)) % 4):
+                    if ctx.quick and (U.stable_hash((typ, seq, rate)) % 4):
                         continue
                     specs.append(U.AdSpec(typ, seq, rate, 1 if m < 3 else 2, False, True, indels, False))
     reads = ["".join(t) for n in range(0, lr + 1) for t in itertools.product("ACN", repeat=n)]
